@@ -2,11 +2,11 @@ package props
 
 import (
 	"context"
-	"os"
-	"runtime"
 	"fmt"
 	"io"
 	"math/rand"
+	"os"
+	"runtime"
 	"strings"
 	"time"
 
@@ -456,22 +456,32 @@ func checkLeaks(e *core.Env, when string) {
 	curEnv = e
 	var left []string
 	lastSig, same := "", 0
-	for i := 0; i < 60; i++ {
-		left = libraryGoroutines(allStacks())
+	settled := false
+	for i := 0; i < 600; i++ {
+		dump := allStacks()
+		left = libraryGoroutines(dump)
 		if len(left) == 0 {
 			e.Count("leak_checks_clean", 1)
 			return
 		}
+		// what remains counts as left behind only when nothing in the process can run any more and the
+		// picture has not changed for two seconds (a loaded machine must not turn slowness into a leak)
+		_, runnable, _ := parkSignature(dump)
 		sig := strings.Join(left, "\n")
-		if sig == lastSig {
+		if sig == lastSig && !runnable {
 			same++
 		} else {
 			lastSig, same = sig, 0
 		}
-		if same >= 8 {
+		if same >= 20 {
+			settled = true
 			break
 		}
 		time.Sleep(100 * time.Millisecond)
+	}
+	if !settled {
+		e.Inconclusive("C05 leak check %s: goroutines with library frames kept changing for 60 s", when)
+		return
 	}
 	if len(left) > 0 {
 		e.Violate("leak/"+leakClass(left[0]), fmt.Sprintf("%d goroutine(s) with library frames remain %s: %s", len(left), when, trunc(strings.Join(left, " || "), 1500)), left)
